@@ -170,12 +170,15 @@ func NewWorld(orbiterGenesisOverride json.RawMessage) (w *World, initErr error) 
 	// ---- abstract byte values (pairwise distinct so that swapped fields are visible)
 	for name, v := range map[string][]byte{
 		"MINT_A": b32(0xA1, 0x01), "MINT_B": b32(0xA2, 0x01), "MINT_ZERO": make([]byte, 32),
-		"CALLER_A": b32(0xB1, 0x02), "CALLER_B": b32(0xB2, 0x02),
+		"CALLER_A": b32(0xB1, 0x02), "CALLER_B": b32(0xB2, 0x02), "CALLER_ZERO": make([]byte, 32),
 		"R_A": b32(0xC1, 0x03), "R_B": b32(0xC2, 0x03),
 		"T_UNK": b32(0xD9, 0x04), "H_UNK": b32(0xE9, 0x05),
 	} {
 		w.addB32(name, v)
 	}
+	// wrong-length values (reverse names only; "MINT_ZERO" keeps the name of the 32 zero bytes)
+	w.bytes32Name[fmt.Sprintf("%x", wrongLen("SHORT"))] = "SHORT"
+	w.bytes32Name[fmt.Sprintf("%x", wrongLen("LONG33"))] = "LONG33"
 
 	// ---- genesis
 	gen := app.DefaultGenesis()
@@ -319,11 +322,34 @@ func (w *World) addB32(name string, v []byte) {
 	w.bytes32Name[fmt.Sprintf("%x", v)] = name
 }
 
+// wrongLen gives the byte values of the wrong-length classes: distinctive, so that a truncation or a
+// padding into another value is visible.
+func wrongLen(name string) []byte {
+	if name == "SHORT" {
+		return []byte{1, 2, 3}
+	}
+	v := make([]byte, 33)
+	v[0], v[32] = 0xF1, 0x07
+	return v
+}
+
+// nameOfCaller names a destination-caller value: 32 zero bytes are "CALLER_ZERO" in that field (the
+// same bytes are "MINT_ZERO" as a mint recipient).
+func (w *World) nameOfCaller(v []byte) string {
+	if n := w.nameOfBytes(v); n != "CALLER_ZERO" && n != "MINT_ZERO" {
+		return n
+	}
+	return "CALLER_ZERO"
+}
+
 func (w *World) nameOfBytes(v []byte) string {
 	if len(v) == 0 {
 		return "NONE"
 	}
 	if n, ok := w.bytes32Name[fmt.Sprintf("%x", v)]; ok {
+		if n == "CALLER_ZERO" {
+			return "MINT_ZERO" // one value, two abstract names: the field decides (nameOfCaller)
+		}
 		return n
 	}
 	return fmt.Sprintf("?%x", v)
